@@ -39,8 +39,10 @@ WellFormedSet(r) == /\ Has(r, { "x", "f0", "f1", "pre", "post", "fresh", "raised
 \* the kind of pair, named from the make-up of the two fits (used in signatures of raised calls)
 PairClass(x, f0, f1) ==
   IF ~ f0.inv THEN "first-fit-without-inversion"
+  ELSE IF x # "O" /\ x # "C" /\ f0.nm = 0 THEN "first-fit-without-mapper"
+  ELSE IF x = "W" /\ f0.sh # f1.sh THEN "shapes-differ"          \* the noise maps are all that this setter compares
   ELSE IF ~ f1.inv THEN "second-fit-without-inversion"
-  ELSE IF x # "O" /\ f0.nm = 0 THEN "first-fit-without-mapper"
+  ELSE IF x = "C" /\ f0.nm = 0 THEN "first-fit-without-mapper"
   ELSE IF x # "O" /\ f1.nm = 0 THEN "second-fit-without-mapper"
   ELSE IF x = "L" /\ f0.nf = 0 THEN "first-fit-without-linear-func"
   ELSE IF x = "L" /\ f1.nf = 0 THEN "second-fit-without-linear-func"
@@ -50,7 +52,8 @@ PairClass(x, f0, f1) ==
 
 \* per-slot verdicts of the called setter's own slots
 Unrecognised(r, s) == r.post[s] = "?"
-FlagBad(r, s) == s = "use_w_tilde" /\ r.post[s] # (IF r.post["w_tilde"] # None THEN "true" ELSE "false")
+\* the flag says "use the w-tilde formalism": True with a filled slot; False (or undecided, None) with an empty one
+FlagBad(r, s) == s = "use_w_tilde" /\ (IF r.post["w_tilde"] # None THEN r.post[s] # "true" ELSE r.post[s] \notin { "false", None })
 Unagreed(r, s) == s # "use_w_tilde" /\ r.post[s] # None /\ ~ Agreed(s, r.f0, r.f1)
 WrongValue(r, s) == s # "use_w_tilde" /\ r.post[s] # None /\ r.post[s] # Val(r.f0, s)
 NotFilled(r, s) == ~ r.raised /\ s \in MustFill(r.x, r.f0, r.f1) /\ r.post[s] # Val(r.f0, s)
@@ -61,37 +64,36 @@ SlotClass(r, s) ==
   IF Unrecognised(r, s) THEN "unrecognised"
   ELSE IF FlagBad(r, s) THEN "flag"
   ELSE IF r.post[s] # None /\ HistoryDependent(r, s) /\ r.post[s] = r.pre[s] THEN "stale"
-  ELSE IF Unagreed(r, s) THEN "unagreed"
+  ELSE IF Unagreed(r, s) THEN "unagreed-" \o (IF Val(r.f0, s) = None THEN "absent-in-first-fit"
+                                              ELSE IF Val(r.f1, s) = None THEN "absent-in-second-fit" ELSE "differs")
   ELSE IF WrongValue(r, s) THEN "wrong-value"
   ELSE IF NotFilled(r, s) THEN "not-filled"
   ELSE "history-dependent"
 
 Touched(r) == SelectSeq(AllSlots, LAMBDA s : s \notin ToSet(SlotsOf(r.x)) /\ r.post[s] # r.pre[s])
 InfoOk(r) == r.info = InfoOf(r.post)
+Continuous(r) == r.cont => \A s \in AllSlotSet : r.pre[s] = slots[s]
 
-SetClauses(r) ==
-  LET S == SlotsOf(r.x)
-      SS == ToSet(S)
-  IN Cl("no-exception", ~ r.raised)
-     \o Cl("slot-values-recognised", \A s \in AllSlotSet : r.post[s] # "?")
-     \o Cl("slot-only-if-agreed", \A s \in SS : ~ Unagreed(r, s))
-     \o Cl("no-stale-slot", \A s \in SS : ~ WrongValue(r, s))
-     \o Cl("use-w-tilde-flag-consistent", \A s \in SS : ~ FlagBad(r, s))
-     \o Cl("filled-when-documented", \A s \in SS : ~ NotFilled(r, s))
-     \o Cl("other-slots-untouched", Touched(r) = << >>)
-     \o Cl("same-as-single-call-on-new-object", \A s \in SS : ~ HistoryDependent(r, s))
-     \o Cl("info-lists-filled-slots", InfoOk(r))
-     \o Cl("pre-state-is-previous-post-state", r.cont => \A s \in AllSlotSet : r.pre[s] = slots[s])
-     \o Cl("quantities-equal-or-well-separated", ~ r.near)
-
-SetSig(r) ==
+\* one finding per offending slot (so that a known finding about one slot never hides a new one about another)
+Item(r, what, cls, tagged) == [ sig |-> Name(r.x) \o ":" \o what \o (IF tagged THEN Tag(r) ELSE ""), clauses |-> cls ]
+SlotItem(r, s) ==
+  Item(r, s \o ":" \o SlotClass(r, s),
+       Cl("slot-values-recognised", ~ Unrecognised(r, s))
+       \o Cl("use-w-tilde-flag-consistent", ~ FlagBad(r, s))
+       \o Cl("slot-only-if-agreed", ~ Unagreed(r, s))
+       \o Cl("no-stale-slot", ~ WrongValue(r, s))
+       \o Cl("filled-when-documented", ~ NotFilled(r, s))
+       \o Cl("same-as-single-call-on-new-object", ~ HistoryDependent(r, s)), FALSE)
+SetItems(r) ==
   LET bad == SelectSeq(SlotsOf(r.x), LAMBDA s : SlotBad(r, s))
-      what == IF r.raised THEN "raises:" \o PairClass(r.x, r.f0, r.f1)
-              ELSE IF bad # << >> THEN Head(bad) \o ":" \o SlotClass(r, Head(bad))
-              ELSE IF Touched(r) # << >> THEN Head(Touched(r)) \o ":touched"
-              ELSE IF ~ InfoOk(r) THEN "info:mismatch"
-              ELSE "harness:continuity"
-  IN Name(r.x) \o ":" \o what \o Tag(r)
+      unrec == SelectSeq(OtherSlots, LAMBDA s : r.post[s] = "?")
+  IN (IF r.raised THEN << Item(r, "raises:" \o PairClass(r.x, r.f0, r.f1), << "no-exception" >>, TRUE) >> ELSE << >>)
+     \o [ k \in DOMAIN bad |-> SlotItem(r, bad[k]) ]
+     \o [ k \in DOMAIN Touched(r) |-> Item(r, Touched(r)[k] \o ":touched", << "other-slots-untouched" >>, FALSE) ]
+     \o [ k \in DOMAIN unrec |-> Item(r, unrec[k] \o ":unrecognised", << "slot-values-recognised" >>, FALSE) ]
+     \o (IF InfoOk(r) THEN << >> ELSE << Item(r, "info:mismatch", << "info-lists-filled-slots" >>, FALSE) >>)
+     \o (IF Continuous(r) THEN << >> ELSE << Item(r, "harness:continuity", << "pre-state-is-previous-post-state" >>, FALSE) >>)
+     \o (IF ~ r.near THEN << >> ELSE << Item(r, "harness:near-equal-quantities", << "quantities-equal-or-well-separated" >>, FALSE) >>)
 
 SetWant(r) == [ allowed |-> [ s \in ToSet(SlotsOf(r.x)) |->
                                IF s = "use_w_tilde" THEN "true iff w_tilde is filled"
@@ -137,22 +139,23 @@ UseClauses(r) ==
   Cl("no-exception", ~ r.raised)
   \o Cl("third-fit-shares-the-agreed-quantities", Shares(r))
   \o Cl("using-agreed-slots-is-invisible", (SoundlyFilled(r) /\ Shares(r) /\ ~ r.raised) => Differing(r) = << >>)
-UseSig(r) == "use:" \o (IF r.raised THEN "raises" ELSE IF ~ Shares(r) THEN "harness-third-fit"
-                        ELSE IF Differing(r) # << >> THEN Head(Differing(r)) ELSE "none") \o Tag(r)
+UseSig(r) == "use:" \o (IF r.raised THEN "raises" ELSE IF ~ Shares(r) THEN "harness-third-fit" ELSE "outputs-differ") \o Tag(r)
 
 -----------------------------------------------------------------------------
+One(sig, cls) == << [ sig |-> sig, clauses |-> cls ] >>
 Judge(r) ==
   LET kind == IF Has(r, { "a" }) THEN r.a ELSE "?"
       wf == CASE kind = "set" -> WellFormedSet(r) [] kind = "new" -> WellFormedNew(r)
               [] kind = "check" -> WellFormedCheck(r) [] kind = "use" -> WellFormedUse(r) [] OTHER -> FALSE
-      bad == IF ~ wf THEN << "record-well-formed" >>
-             ELSE CASE kind = "set" -> SetClauses(r) [] kind = "new" -> NewClauses(r)
-                    [] kind = "check" -> CheckClauses(r) [] OTHER -> UseClauses(r)
-      sig == IF ~ wf THEN "harness:malformed-record"
-             ELSE CASE kind = "set" -> SetSig(r) [] kind = "new" -> NewSig(r) [] kind = "check" -> CheckSig(r) [] OTHER -> UseSig(r)
+      items == IF ~ wf THEN One("harness:malformed-record", << "record-well-formed" >>)
+               ELSE CASE kind = "set" -> SetItems(r)
+                      [] kind = "new" -> IF NewClauses(r) = << >> THEN << >> ELSE One(NewSig(r), NewClauses(r))
+                      [] kind = "check" -> IF CheckClauses(r) = << >> THEN << >> ELSE One(CheckSig(r), CheckClauses(r))
+                      [] OTHER -> IF UseClauses(r) = << >> THEN << >> ELSE One(UseSig(r), UseClauses(r))
       want == IF wf /\ kind = "set" THEN SetWant(r) ELSE [ allowed |-> "see clauses" ]
-  IN IF bad = << >> THEN TRUE
-     ELSE PrintT(ToJson([ k |-> "reject", i |-> i, id |-> (IF Has(r, { "id" }) THEN r.id ELSE -1), clauses |-> bad, sig |-> sig, want |-> want ]))
+  IN \A k \in DOMAIN items :
+        PrintT(ToJson([ k |-> "reject", i |-> i, id |-> (IF Has(r, { "id" }) THEN r.id ELSE -1), clauses |-> items[k].clauses,
+                        sig |-> items[k].sig, want |-> want ]))
 
 TraceInit == /\ i = 1
              /\ slots = Fresh("none")
